@@ -153,10 +153,16 @@ class MNewton:
             if dfx == 0:
                 # stationary point: near a multiple root, f is down to
                 # rounding noise and x cannot be improved
+                yield x, self.ctx.zero
                 break
             d2fx = d2f(x)
             # x = x - F(x)/F'(x) with F(x) = f(x)/f'(x)
-            x -= fx / (dfx - fx * d2fx / dfx)
+            d = dfx - fx * d2fx / dfx
+            if d == 0:
+                # likewise: all of f, f', f'' are rounding noise
+                yield x, self.ctx.zero
+                break
+            x -= fx / d
             error = abs(x - prevx)
             yield x, error
 
